@@ -29,6 +29,7 @@ KEY_HANG = "crash-or-deadlock"
 
 # --------------------------------------------------------------------------- program representation
 # case  = {"n","w","du","phases":[phase]}      "du": one displacement unit for all ranks (int) or one per rank (list)
+#                                               "w": one window size (ints) for all ranks (int) or one per rank (list)
 # phase = {"kind": "X"|"S"|"F"|"N", "ranks": [[item]]}     item = ("epoch", t, [item]) | ("call", call) | ("wait", usec)
 #                                                           | ("flush", t);   F phases carry "fa": (assert1, assert2)
 # call  = {"k": put|get|acc|gacc|fop|cas, "t", "idx", "n", "op", "vals", "cmp", "new"}   (idx = int index in the window)
@@ -41,6 +42,21 @@ def dus_of(case):
     """the disp_unit every rank passes to MPI_Win_create (MPI lets each rank choose its own)"""
     du = case["du"]
     return list(du) if isinstance(du, (list, tuple)) else [du] * case["n"]
+
+
+def ws_of(case):
+    """the size (in ints) of the window every rank exposes (each rank calls MPI_Win_create with its own size)"""
+    w = case["w"]
+    return list(w) if isinstance(w, (list, tuple)) else [w] * case["n"]
+
+
+def w_token(case):
+    w = case["w"]
+    return ",".join(map(str, w)) if isinstance(w, (list, tuple)) else str(w)
+
+
+def pad(row, width):
+    return list(row) + [0] * (width - len(row))
 
 
 def du_token(case):
@@ -157,7 +173,7 @@ def gen_epoch_calls(rng, n, w, du, t, initvals, with_waits, allow_cas=True):
     return items
 
 
-def gen_X(rng, n, w, dus, initvals):
+def gen_X(rng, n, ws, dus, initvals):
     contended = rng.chance(2, 3)
     hot = rng.below(n)
     with_waits = rng.chance(1, 2)
@@ -174,7 +190,7 @@ def gen_X(rng, n, w, dus, initvals):
                     items.append(("wait", rng.choice([1, 10, 100, 300])))
                 elif rng.chance(1, 5):
                     items.append(("wait", rng.choice([1, 30, 120])))
-                calls = gen_epoch_calls(rng, n, w, dus[t], t, initvals, with_waits, allow_cas)
+                calls = gen_epoch_calls(rng, n, ws[t], dus[t], t, initvals, with_waits, allow_cas)
                 if calls:
                     items.append(("epoch", t, calls))
             ranks.append(items)
@@ -183,12 +199,13 @@ def gen_X(rng, n, w, dus, initvals):
             return {"kind": "X", "ranks": ranks}
 
 
-def gen_SF(rng, kind, n, w, dus, initvals, opened):
+def gen_SF(rng, kind, n, ws, dus, initvals, opened):
     """lock_all or fence phase: cells of every target get a class; calls respect the classes, so that the program is
     race-free in MPI's sense (conflicts only between same-operator accumulate-family calls, or between CAS)."""
     cls = {}
     for t in range(n):
         du = dus[t]
+        w = ws[t]
         i = 0
         while i < w:
             seg = min(w - i, rng.choice([1, 1, 2, 3]))
@@ -214,7 +231,7 @@ def gen_SF(rng, kind, n, w, dus, initvals, opened):
             items = []
             for _ in range(rng.choice([0, 1, 2, 2, 3])):
                 t = rng.below(n)
-                idx = rng.below(w)
+                idx = rng.below(ws[t])
                 if dus[t] == 8:
                     idx -= idx % 2
                 c = cls[(t, idx)]
@@ -269,13 +286,13 @@ def gen_SF(rng, kind, n, w, dus, initvals, opened):
             return ph
 
 
-def gen_N(rng, n, w, dus):
+def gen_N(rng, n, ws, dus):
     ranks = [[] for _ in range(n)]
     r = rng.below(n)
     for _ in range(rng.range(1, 2)):
         kind = rng.choice(["put", "get", "acc", "fop", "cas"])
-        idx = rng.below(w)
         t = rng.below(n)
+        idx = rng.below(ws[t])
         if dus[t] == 8:
             idx -= idx % 2
         ranks[r].append(("call", gen_call_on(rng, kind, t, idx, 1, rng.choice(OPS))))
@@ -289,8 +306,12 @@ def gen_case(rng):
     if rng.chance(1, 2):
         # every rank passes its own disp_unit to MPI_Win_create: displacements are scaled by the TARGET's unit
         du = [rng.choice([4, 1, 8]) for _ in range(n)]
+    if rng.chance(1, 3):
+        # every rank exposes a window of its own size: the range check uses the TARGET's size
+        w = [rng.choice([1, 2, 3, 4, 5, 6, 8, 12]) for _ in range(n)]
     case = {"n": n, "w": w, "du": du, "phases": []}
     du = dus_of(case)
+    w = ws_of(case)
     opened = 0
     # the generator tracks a *guess* of the memory only to choose interesting CAS compare values
     guess = lambda t, i: 1000 * (t + 1) + i
@@ -313,9 +334,10 @@ def gen_case(rng):
         if sf:
             ph = sf[0]
             r = rng.below(n)
-            cnt = w + rng.choice([1, 1, 1, 2, 3])
+            t = rng.below(n)
+            cnt = w[t] + rng.choice([1, 1, 1, 2, 3])
             kind = rng.choice(["put", "get", "acc", "gacc"])
-            ph["ranks"][r].append(("call", gen_call_on(rng, kind, rng.below(n), 0, cnt, "sum")))
+            ph["ranks"][r].append(("call", gen_call_on(rng, kind, t, 0, cnt, "sum")))
             case["malformed"] = True
     return case
 
@@ -366,7 +388,7 @@ def call_query(dus, c):
 def emit_script(case, dump_base):
     """-> (lines, [dump id per phase])"""
     du = dus_of(case)
-    out = ["W %d %s" % (case["w"], du_token(case))]
+    out = ["W %s %s" % (w_token(case), du_token(case))]
     dumps = []
     for pi, ph in enumerate(case["phases"]):
         kind = ph["kind"]
@@ -402,9 +424,10 @@ def emit_script(case, dump_base):
 
 def phase_query(case, ph, before):
     du = dus_of(case)
-    toks = ["ph", ph["kind"], str(case["n"]), str(case["w"]), du_token(case), "M"]
+    toks = ["ph", ph["kind"], str(case["n"]), w_token(case), du_token(case), "M"]
+    wmax = max(ws_of(case))
     for r in range(case["n"]):
-        toks += [str(v) for v in before[r]]
+        toks += [str(v) for v in pad(before[r], wmax)]
     for r, items in enumerate(ph["ranks"]):
         first = True
         for it in items:
@@ -508,14 +531,15 @@ class Runner:
 
 def driver_lines(case, obs):
     """one driver line per phase; the memory before a phase is the one observed after the previous one"""
-    n, w = case["n"], case["w"]
-    before = [[1000 * (r + 1) + i for i in range(w)] for r in range(n)]
+    n, ws = case["n"], ws_of(case)
+    wmax = max(ws)
+    before = [[1000 * (r + 1) + i for i in range(ws[r])] for r in range(n)]
     lines = []
     for ph, o in zip(case["phases"], obs):
-        if any(x is None or len(x) != w for x in o["wins"]):
+        if any(x is None or len(x) != ws[r] for r, x in enumerate(o["wins"])):
             return None
         q = phase_query(case, ph, before)
-        a = ["W"] + [str(v) for r in range(n) for v in o["wins"][r]]
+        a = ["W"] + [str(v) for r in range(n) for v in pad(o["wins"][r], wmax)]
         for i in sorted(o["R"]):
             a += ["R", str(i), str(len(o["R"][i]))] + [str(v) for v in o["R"][i]]
         for i in sorted(o["E"]):
@@ -585,7 +609,8 @@ def corpus_cases():
 
 def boundary_cases():
     """deterministic boundary enumeration; runs first on every seed, after the corpus.
-    Window sizes 1 (a counter), 2, 5; the same disp_unit everywhere and three rotations of per-rank units 4 / 1 / 8; for
+    Window sizes 1 (a counter), 2, 5 on all ranks, and 1 / 5 / 2 and 5 / 2 / 1 on ranks 0 / 1 / 2 (a call that fits the
+    target may be longer than the origin's own window and vice versa); the same disp_unit everywhere and three rotations of per-rank units 4 / 1 / 8; for
     each: A whole-window Put / Accumulate / Get_accumulate (count == window size at displacement 0), B whole-window Get
     from a remote rank and from oneself, C the last element only (Fetch_and_op / CAS / Put), C2 a Get / Get_accumulate
     from displacement > 0 up to the last element (displacement + count == window size), D one element more than the
@@ -610,39 +635,41 @@ def boundary_cases():
             ph["fa"] = (0, 8)
         return ph
 
-    for w in (1, 2, 5):
+    for w in (1, 2, 5, [1, 5, 2], [5, 2, 1]):
         for du in (4, [4, 1, 8], [8, 4, 1], [1, 8, 4]):
             dus = du if isinstance(du, list) else [du] * n
+            ws = w if isinstance(w, list) else [w] * n          # ws[t]: size of the window of rank t
             ok = lambda t, idx: (idx * 4) % dus[t] == 0
             kinds = ["X", "S", "F"]
             phases = []
-            vals = lambda r, m: [10 * (r + 1) + i + 100 * m for i in range(w)]
+            vals = lambda r, t, m: [10 * (r + 1) + i + 100 * m for i in range(ws[t])]
             # A
             wr = []
             for r in range(n):
                 t = (r + 1) % n
                 k = ["put", "acc", "gacc"][(r + j) % 3]
-                kw = {"vals": vals(r, 0)}
+                kw = {"vals": vals(r, t, 0)}
                 if k != "put":
                     kw["op"] = ["sum", "replace", "max"][(r + j) % 3]
-                wr.append([call(k, t, 0, w, **kw)])
+                wr.append([call(k, t, 0, ws[t], **kw)])
             phases.append(phase(kinds[j % 3], wr))
             # B
-            phases.append(phase(kinds[(j + 1) % 3], [[call("get", (r + 2) % n, 0, w), call("get", r, 0, w)]
+            phases.append(phase(kinds[(j + 1) % 3], [[call("get", (r + 2) % n, 0, ws[(r + 2) % n]), call("get", r, 0, ws[r])]
                                                      for r in range(n)]))
             # C
             lc = []
             for r in range(n):
                 t = (r + 1) % n
                 k = ["fop", "cas", "put"][(r + j) % 3]
-                if not ok(t, w - 1):
+                last = ws[t] - 1
+                if not ok(t, last):
                     lc.append([])
                 elif k == "fop":
-                    lc.append([call("fop", t, w - 1, 1, op="sum", vals=[5])])
+                    lc.append([call("fop", t, last, 1, op="sum", vals=[5])])
                 elif k == "cas":
-                    lc.append([call("cas", t, w - 1, 1, cmp=1000 * (t + 1) + w - 1, new=33)])
+                    lc.append([call("cas", t, last, 1, cmp=1000 * (t + 1) + last, new=33)])
                 else:
-                    lc.append([call("put", t, w - 1, 1, vals=[77])])
+                    lc.append([call("put", t, last, 1, vals=[77])])
             if any(lc):
                 phases.append(phase(kinds[(j + 2) % 3], lc))
             # C2
@@ -650,12 +677,12 @@ def boundary_cases():
             for r in range(n):
                 t = (r + 1) % n
                 idx = 2 if dus[t] == 8 else 1
-                if idx >= w:
+                if idx >= ws[t]:
                     tl.append([])
                 elif (r + j) % 2:
-                    tl.append([call("gacc", t, idx, w - idx, op="noop", vals=[0] * (w - idx))])
+                    tl.append([call("gacc", t, idx, ws[t] - idx, op="noop", vals=[0] * (ws[t] - idx))])
                 else:
-                    tl.append([call("get", t, idx, w - idx)])
+                    tl.append([call("get", t, idx, ws[t] - idx)])
             if any(tl):
                 phases.append(phase(kinds[j % 3], tl))
             # D
@@ -663,10 +690,10 @@ def boundary_cases():
             for r in range(n):
                 t = (r + 1) % n
                 k = ["get", "put", "acc", "gacc"][(r + j) % 4]
-                kw = {} if k == "get" else {"vals": vals(r, 1) + [9]}
+                kw = {} if k == "get" else {"vals": vals(r, t, 1) + [9]}
                 if k in ("acc", "gacc"):
                     kw["op"] = "sum"
-                bad.append([call(k, t, 0, w + 1, **kw)])
+                bad.append([call(k, t, 0, ws[t] + 1, **kw)])
             phases.append(phase(kinds[(j + 1) % 3], bad))
             cs.append({"n": n, "w": w, "du": du, "phases": phases, "malformed": True})
             j += 1
@@ -676,13 +703,20 @@ def boundary_cases():
 def boundary_stats(case, st):
     """what the generated stream reaches of the boundaries (reported in the coverage)"""
     dus = dus_of(case)
-    w = case["w"]
+    ws = ws_of(case)
     if len(set(dus)) > 1:
         st["programs_with_per_rank_disp_unit"] += 1
-    if w == 1:
+    if len(set(ws)) > 1:
+        st["programs_with_per_rank_window_size"] += 1
+    if 1 in ws:
         st["programs_with_one_element_window"] += 1
     for ph in case["phases"]:
         for r, c in phase_calls(ph):
+            w = ws[c["t"]]
+            if w < c["n"] <= ws[r]:
+                st["calls_too_long_for_the_target_but_not_for_the_origin(malformed)"] += 1
+            if ws[r] < c["n"] <= w:
+                st["calls_longer_than_the_origin's_own_window"] += 1
             if c["n"] > w:
                 st["calls_past_the_end(malformed)"] += 1
                 if c["n"] == w + 1:
@@ -722,7 +756,7 @@ def run(ctx):
         "CAS cells are only used by CAS)",
         "simulated dates are fixed by --cfg=smpi/simulate-computation:no, so which serialisation the library realises is "
         "deterministic per program; the set of schedules explored is the one the generated waits produce",
-        "windows of MPI_INT, contiguous datatypes only; all ranks expose windows of the same size (disp_unit is per rank)"]
+        "windows of MPI_INT, contiguous datatypes only"]
     ctx.ensure_simgrid(["simgrid", "smpimain"])
     ctx.lean_prove()
     drv = ctx.lean_exe()
@@ -745,6 +779,8 @@ def run(ctx):
         cases = corpus_cases() + boundary_cases() + [gen_case(rng.fork(i)) for i in range(ncases)]
     ncorpus = len(corpus_cases()) + len(boundary_cases())
     bstats = {k: 0 for k in ("programs_with_per_rank_disp_unit", "programs_with_one_element_window",
+                             "programs_with_per_rank_window_size", "calls_longer_than_the_origin's_own_window",
+                             "calls_too_long_for_the_target_but_not_for_the_origin(malformed)",
                              "calls_past_the_end(malformed)", "calls_one_element_too_many(malformed)",
                              "calls_ending_at_the_last_element", "calls_spanning_the_whole_window",
                              "calls_at_disp>0_to_a_target_with_another_disp_unit",
